@@ -23,21 +23,23 @@ EXTENDS TraceOps
 
 Hands == ndJsonDeserialize(IOEnv.TRACE)
 
-VARIABLES tid, l, S
-vars == <<tid, l, S>>
+VARIABLES tid, l, S, full
+vars == <<tid, l, S, full>>
 
 Init ==
   /\ tid \in DOMAIN Hands
   /\ l = 0
   /\ Force(CreateOK(tid, Hands[tid]))
   /\ S = IF Hands[tid].create.out = "ok" THEN Hands[tid].create.post ELSE [fault |-> "create:" \o Hands[tid].create.out]
+  /\ full = IF Hands[tid].create.out = "ok" THEN Hands[tid].create.post.log ELSE <<>>
 
 Next ==
   /\ S.fault = ""
   /\ l < Len(Hands[tid].steps)
   /\ LET H == Hands[tid]
          ev == H.steps[l + 1]
-     IN /\ Force(StepOK(tid, l + 1, CfgOf(H), S, ev))
+     IN /\ Force(StepOK(tid, l + 1, CfgOf(H), S, ev, full, TRUE))
+        /\ full' = IF ev.op # "none" /\ (ev.out = "ok" \/ ~ev.same) THEN full \o TagLog(S, ev) ELSE full
         /\ S' = NextState(S, ev)
         /\ l' = l + 1
         /\ UNCHANGED tid
